@@ -40,6 +40,7 @@ structure Opts where
   policy : Policy := .sync
   chunkh : Bool := false
   conth : Bool := false
+  contReject : Bool := false   -- conth=2: the expect-continue handler answers 417 instead of 100
   invh : Bool := false
   senth : Bool := false
   trace : Bool := false
@@ -443,7 +444,10 @@ def receiveLoop (fuel : Nat) (w : World) (i : Nat) : Nat → Bytes → World
         let w :=
           if w.opts.conth then
             let w := w.emit s!"ev continue {cn i} {reqFields (w.get i).rx}"
-            if w.opts.policy != .deferred then (httpSend fuel w i 100 (Enc.reasonPhrase 100) [] [] 0).1 else w
+            if w.opts.policy != .deferred then
+              let st : Int := if w.opts.contReject then 417 else 100
+              (httpSend fuel w i st (Enc.reasonPhrase st) [] [] 0).1
+            else w
           else
             let w := (httpSendResponse fuel w i).1
             if w.opts.chunkh && (w.get i).rx.request.headers.isChunked then requestHandler fuel w i else w
